@@ -8,12 +8,12 @@ CLAIMS = {
  "C02": {
   "technique": "Lean 4 proof (model of RunState::execute refines bit-field ISA spec for all words/states) + differential correspondence model vs Rust on all 65,536 words",
   "text": "Theorem execute_eq_isa: the Lean model of RunState::execute equals the bit-field ISA specification for every instruction word, machine state, input stream and feature/output setting (no bounds); frame, unsupported-encoding and no-panic theorems follow. The model is tied to the Rust code on every run by executing all 65,536 instruction words on sampled boundary states in both and comparing registers, PC, CC, every memory word, stdout and consumed input.",
-  "note": "Trusted: Lean kernel; axioms propext, Classical.choice, Quot.sound; the hand-written model is validated against the code by differential testing only (all words x sampled states); Rust formatting re-implemented in Lean; REG output modelled in --minimal mode only; RTI excluded.",
+  "note": "Trusted: Lean kernel; axioms propext, Classical.choice, Quot.sound; the hand-written model is validated against the code by differential testing only (all words x sampled states); Rust formatting re-implemented in Lean; REG output modelled in both output modes (normal-mode table: Lace/Basic/Tables.lean); RTI excluded.",
   "ref": "DESIGN.md §4 C02"},
  "C03": {
   "technique": "Lean 4 proof (loader = spec, run loop = reference loop for all fuel, fetch addresses always in user space, no panic) + differential correspondence on generated programs and raw images",
   "text": "Theorems load_spec, run_eq_ref, fetch_in_bounds, run_panic_only_rti hold for every image, input and step count. The model of from_raw/run is tied to the Rust code on every run by executing generated terminating programs and arbitrary word images in both under a step budget and comparing outcome, exit status, final machine (all 65,536 words), stdout, input consumed and the fetch-address trace; the no-out-of-bounds-fetch predicate is also checked directly on the implementation's event log. GETC/IN from an interactive terminal (term::read_byte, unreachable with piped input) are tied by spawning `lace run` with a pseudo-terminal on stdin and typing ASCII and 2/3/4-byte keys (harness id C03T): a key of N UTF-8 bytes must behave as N input bytes.",
-  "note": "Trusted: Lean kernel; axioms propext, Classical.choice, Quot.sound; model validated by differential testing; stderr text and non-minimal REG table not modelled; the reference loop and the model loop have the same shape by nature (the value is in fetch_in_bounds, load_spec, no-panic and the trap clauses of C02).",
+  "note": "Trusted: Lean kernel; axioms propext, Classical.choice, Quot.sound; model validated by differential testing; stderr text not modelled; the reference loop and the model loop have the same shape by nature (the value is in fetch_in_bounds, load_spec, no-panic and the trap clauses of C02).",
   "ref": "DESIGN.md §4 C03"},
  "C20": {
   "technique": "Lean 4 proof (one-step simulation of Terminal::handle_key against a reference editor + invariant, induction over all key sequences, all classifiers) + exhaustive/differential correspondence through hooks on the real Terminal",
